@@ -498,9 +498,12 @@ func (self *PathNode) handleChild(in *[]PathNode, lp *int, cp *int, p *binary.Bi
 				// parentDesc = desc.Message()
 				var err error
 				messageLen, err = p.ReadLength() // the sub message has message byteLen need to read before next recurse for scanChildren
-				if messageLen < 0 || err != nil {
+				if messageLen < 0 || err != nil || messageLen > len(p.Buf)-p.Read {
 					return nil, wrapError(meta.ErrRead, "read message length failed", err)
 				}
+				// the unpacked lists and maps of the sub message are scanned up to the end of the buffer:
+				// bound them by the end of the sub message
+				p.Buf = p.Buf[:p.Read+messageLen]
 			}
 
 			if err := v.scanChildren(p, recurse, opts, parentDesc, messageLen); err != nil {
